@@ -272,7 +272,10 @@ fn gen_positions(rng: &mut Rng, c: &Cfg) -> (Option<Vec<usize>>, usize, &'static
 
 fn req_e2e<E: Fld>(fam: &str, hname: &str, c: &Cfg, max_deg: usize, deg: Option<usize>, class: &str, detail: &str) -> String {
     let _ = fam;
-    format!("c08 {} e2e {} {} {} {} {} {} {} {} {}", E::NAME, c.blowup, c.ff, c.rmd, c.logd, max_deg,
+    // parameter tuples on which the domain cannot be folded in whole steps down to the remainder
+    // size go under their own op name (recorded finding: the honest prover panics on them)
+    let head = if c.compatible() { format!("c08 {} e2e", E::NAME) } else { format!("c08 e2e_incompat {}", E::NAME) };
+    format!("{head} {} {} {} {} {} {} {} {} {}", c.blowup, c.ff, c.rmd, c.logd, max_deg,
         match deg { Some(d) => d.to_string(), None => "none".to_string() }, class, hname, detail)
 }
 
@@ -293,13 +296,7 @@ fn c08_case<E: Fld, H: ElementHasher<BaseField = E::BaseField>>(rng: &mut Rng, o
     };
     let shape = rng.below(3);
     let coeffs: Vec<E> = if zero { vec![E::ZERO] } else { poly_of_degree(rng, &s, deg, shape) };
-    let (mut custom, mut nq, mut pclass) = gen_positions(rng, c);
-    // degree bound 1 (where the verifier derives a wrong domain, see the finding in the manifest):
-    // position 0 alone is the one point on which the wrong generator is invisible; keep the
-    // verdict of these cases a function of the parameters
-    if c.bound_plus_1() == 2 && custom.as_ref().map_or(false, |p| p.iter().all(|&x| x == 0)) {
-        custom = None; nq = 5.min(c.domain() - 1); pclass = "pos:drawn";
-    }
+    let (custom, nq, pclass) = gen_positions(rng, c);
     out.count(dclass); out.count(pclass);
     out.count(&format!("field:{}", E::NAME)); out.count(&format!("hash:{hname}"));
     out.count(&format!("ff:{}", c.ff)); out.count(&format!("rmd:{}", c.rmd)); out.count(&format!("blowup:{}", c.blowup));
@@ -384,7 +381,7 @@ fn c09_case<E: Fld, H: ElementHasher<BaseField = E::BaseField>>(rng: &mut Rng, o
             out.count(class);
             let evals = evaluate(&poly_of_degree::<E>(rng, &s, deg, 0), domain);
             // the channel is built either for the true domain or for the domain implied by the claim
-            let claimed_domain = max_deg.next_power_of_two() * c.blowup;
+            let claimed_domain = (max_deg + 1).next_power_of_two() * c.blowup;
             let chan_domain = if rng.chance(1, 2) { domain } else { claimed_domain };
             let req = req_e2e::<E>("c09", hname, c, max_deg, Some(deg), class, &format!("#{case_no} nq={nq} chan={chan_domain}"));
             let mut tr: Option<(String, String)> = None;
@@ -403,7 +400,7 @@ fn c09_case<E: Fld, H: ElementHasher<BaseField = E::BaseField>>(rng: &mut Rng, o
         _ => {
             let deg = if rng.chance(1, 2) { bound } else { rng.below(bound as u64 + 1) as usize };
             let evals = evaluate(&poly_of_degree::<E>(rng, &s, deg, 0), domain);
-            let class: &str = match class_sel { 7 => "xlayer", 8 => "xrem", 9 => "xadapt", _ => "xdrop" };
+            let class: &str = match class_sel { 7 => "xlayer", 8 => "xrem", 9 => "xadapt", 10 => "xdrop", _ => "xextra" };
             // the adaptive attack needs fewer distinct last-layer positions than remainder coefficients
             let nq = if class == "xadapt" { rng.range(1, 6) as usize } else { nq };
             let mut detail = String::new();
@@ -469,6 +466,20 @@ fn c09_case<E: Fld, H: ElementHasher<BaseField = E::BaseField>>(rng: &mut Rng, o
                         detail = format!("lastpos={} remsize={r}", pos.len());
                     }
                 },
+                "xextra" => {
+                    // repeat the last layer of the proof (one layer more than commitments allow)
+                    if lay.values.is_empty() { applicable = false; } else {
+                        let n = lay.values.len();
+                        let from = lay.values[n - 1].0 - 4;
+                        let to = lay.paths[n - 1].0 + lay.paths[n - 1].1;
+                        let dup: Vec<u8> = bytes[from..to].to_vec();
+                        let tail = bytes.split_off(to);
+                        bytes.extend_from_slice(&dup);
+                        bytes.extend_from_slice(&tail);
+                        bytes[0] = (n + 1) as u8;
+                        detail = format!("layers={}->{}", n, n + 1);
+                    }
+                },
                 _ => {
                     // drop the last layer of the proof (the verifier still expects it)
                     if lay.values.is_empty() { applicable = false; } else {
@@ -488,7 +499,7 @@ fn c09_case<E: Fld, H: ElementHasher<BaseField = E::BaseField>>(rng: &mut Rng, o
                 let proof = match FriProof::read_from_bytes(&bytes) { Ok(p) => p, Err(_) => { got_main = "err Deserialization".to_string(); return "reject".to_string(); } };
                 let r = run_verifier::<E, H>(proof.clone(), &h.commitments, &h.q_evals, &h.positions, bound, domain, &opts);
                 got_main = detailed(&r);
-                if small && class != "xdrop" {
+                if small {
                     if let Some(l) = transcript_line::<E, H>(&opts, bound, &proof, &h.commitments, &h.q_evals, &h.positions, domain, bad_layer, rem_ok) { tr = Some((l, detailed(&r))); }
                 }
                 verdict(&r)
@@ -690,7 +701,7 @@ fn c08_combo<E: Fld, H: ElementHasher<BaseField = E::BaseField>>(rng: &mut Rng, 
 fn c09_combo<E: Fld, H: ElementHasher<BaseField = E::BaseField>>(rng: &mut Rng, out: &mut Out, hname: &str, n: usize, max_logd: u32) {
     let mut case_no = 0;
     for i in 0..n {
-        for class_sel in 0..=10u64 {
+        for class_sel in 0..=11u64 {
             let cap = if (i + class_sel as usize) % 3 == 0 { max_logd } else { 8 };
             let mut c = gen_cfg(rng, cap, true);
             if class_sel == 9 {
